@@ -245,7 +245,9 @@ Verdict(e) ==
      [] e.op = "b64"       -> EvB64(e)
      [] e.op = "b64poly"   -> EvB64Poly(e)
      [] e.op = "exc"       -> {"no_exception"}
-     [] OTHER              -> PolyVerdict(e) \cup PrioVerdict(e))
+     [] e.op \in PolyOpNames -> PolyVerdict(e)
+     [] e.op \in PrioOpNames -> PrioVerdict(e)
+     [] OTHER              -> {"unknown_op"})
   \cup EvPure(e)
 
 Init == l = 1
